@@ -7,6 +7,7 @@ call or one block connect / disconnect notification handled by netsync.
 import BV.C10.Rbf
 import BV.C10.ComposeUtxo
 import BV.C10.ComposeTemplate
+import BV.C10.Laws2
 import BV.Generated.C10
 namespace BV.C10
 open Spec Lemmas
@@ -51,6 +52,45 @@ theorem reject_unchanged (pol : Policy) (st : State) (op : Op) (r : Rej)
 /-- `CheckMempoolAcceptance` never mutates -/
 theorem check_unchanged (pol : Policy) (st : State) (t : TxAbs) : (step pol st (.check t)).1 = st :=
   step_check_unchanged pol st t
+
+/-! ### the entry points do what they are asked -/
+
+/-- `MaybeAcceptTransaction` answering "accepted": the transaction is pooled afterwards -/
+theorem accepted_is_pooled (pol : Policy) (st : State) (t : TxAbs) (isNew rl : Bool)
+    (h : (step pol st (.maybeAccept t isNew rl)).2 = .accepted [t.id]) :
+    t ∈ (step pol st (.maybeAccept t isNew rl)).1.pool.txs := by
+  simp only [step] at h ⊢
+  cases hm : maybeAccept pol st.chain st.pool t isNew rl true with
+  | mk s' r =>
+    rw [hm] at h
+    cases r with
+    | err e => simp at h
+    | missing ps => simp at h
+    | ok => exact maybeAccept_adds hm
+
+/-- `RemoveTransaction` (with or without redeemers): the transaction is not pooled afterwards -/
+theorem removed_is_gone (pol : Policy) (st : State) (t : TxAbs) (red : Bool) :
+    ∀ u ∈ (step pol st (.remove t red)).1.pool.txs, u.id ≠ t.id := by
+  intro u hu
+  simp only [step] at hu
+  split at hu
+  · rw [markStale_txs] at hu; exact removeTransaction_removes st.pool t red u hu
+  · exact removeTransaction_removes st.pool t red u hu
+
+/-- `CheckMempoolAcceptance` predicts `MaybeAcceptTransaction(tx, isNew = true, rateLimit = true)`: it reports
+success exactly when that call would accept, an error exactly when that call errs (same class), missing
+parents exactly when that call reports them -/
+theorem check_predicts_accept (pol : Policy) (st : State) (t : TxAbs) :
+    (∀ r, (step pol st (.check t)).2 = .err r ↔ (step pol st (.maybeAccept t true true)).2 = .err r) ∧
+    (∀ ps, (step pol st (.check t)).2 = .missing ps ↔ (step pol st (.maybeAccept t true true)).2 = .missing ps) ∧
+    ((∃ f v cs, (step pol st (.check t)).2 = .checked f v cs) ↔
+      (step pol st (.maybeAccept t true true)).2 = .accepted [t.id]) := by
+  simp only [step]
+  rw [maybeAccept_eq]
+  cases hc : checkAccept pol st.chain st.pool t true true true with
+  | err e => simp
+  | missing ps => simp
+  | ok cs => simp
 
 /-! ### ReplacementLaw -/
 
@@ -199,6 +239,16 @@ theorem replacement_no_new_unconfirmed_inputs (pol : Policy) (c : Chain) (s : Po
   rcases hf.repl with ⟨_, h2⟩ | ⟨_, h2⟩
   · exact absurd h2 hne
   · exact validateReplacement_parents h2
+
+/-- an accepted replacement leaves none of the transactions it conflicts with in the pool -/
+theorem replacement_evicts_all (pol : Policy) (c : Chain) (s : Pool) (t : TxAbs) (isNew rl rdo : Bool)
+    (cs : List TxAbs) (h : checkAccept pol c s t isNew rl rdo = .ok cs) (hne : cs ≠ []) :
+    ∀ e ∈ cs, ∀ u ∈ (maybeAccept pol c s t isNew rl rdo).1.txs, u ≠ t → u.id ≠ e.id := by
+  intro e he u hu hut
+  have := (replacement_law pol c s t isNew rl rdo cs h hne).2.2.2.2.2 u
+  rcases this.1 hu with h1 | ⟨_, h2⟩
+  · exact absurd h1 hut
+  · exact h2 e he
 
 /-! ### OrphanBounds -/
 
